@@ -93,6 +93,20 @@ def mk_cast(spec):
                     g[key] = c(g[key])
             return g
         return conv, pure
+    if spec[0] == "dictcount":
+        # converters with a visible state (the number of calls so far is part of the result): a converter is user code,
+        # it must be called exactly once per record that has the key, in the order of the records – results must not
+        # be memoised, shared between records with equal values, or computed ahead
+        conv = {key: CountingConverter() for key, j in spec[1]}
+        sim = {key: CountingConverter() for key in conv}
+
+        def pure(g):
+            g = dict(g)
+            for key, c in sim.items():
+                if key in g:
+                    g[key] = c(g[key])
+            return g
+        return conv, pure
     if spec[0] == "dictsub":
         # a dict subclass (collections.OrderedDict) whose converters are callable objects / builtins
         import collections
@@ -122,6 +136,15 @@ def mk_cast(spec):
             return g
         return (CallableCast(fn) if spec[0] == "callobj" else fn), pure
     raise ValueError(spec)
+
+
+class CountingConverter:
+    def __init__(self):
+        self.n = 0
+
+    def __call__(self, v):
+        self.n += 1
+        return (self.n, v)
 
 
 class Tagger:
@@ -488,7 +511,7 @@ def gen_cast_spec(rng, rx_c):
         return ["none"]
     if r < 8:
         keys = [n for n in names if rng.chance(60)] + (["zz_absent"] if rng.chance(40) else [])
-        return ["dictsub" if rng.chance(25) else "dict", [[k, j] for j, k in enumerate(keys)]]
+        return [rng.choice(["dict", "dict", "dictsub", "dictcount"]), [[k, j] for j, k in enumerate(keys)]]
     return [rng.choice(["fn", "fn", "fnret", "callobj"])]
 
 
@@ -536,6 +559,8 @@ def judge_case(ctx, rx_src, text, is_bytes, kind, cast_spec, ks, wd, seed, strea
     bad = 0
     for k in ks:
         src = fac()
+        if cast_spec[0] == "dictcount":
+            cast = mk_cast(cast_spec)[0]          # stateful converters: a fresh set for every call of parse
         try:
             with OpenTracker() as trk:
                 compiled = bool(extra and extra.get("compiled")) or ((seed + k) % 4 == 0)
